@@ -284,7 +284,23 @@ func runParseWith(seed int64, p *ProgDef, argv []string, hook func(*Built)) *Par
 		obs.Oracle["C07"] = append(obs.Oracle["C07"], OracleHit{Key: "mode-setter",
 			What: fmt.Sprintf("the last SetMode call of the definition was SetMode(%s) (after SetMode(%d)); the program is in mode %s", modeNames[p.Mode], p.ModeFirst-1, modeNames[pre.Root.Mode])})
 	}
+	if hook == nil && obs.HasErr && obs.ErrKind == "EUnknown" && len(obs.Key) > 0 && obs.Key[0]%2 == 0 {
+		// C08: the unknown-option policy belongs to Parse, not to the first call of Parse on an
+		// object: the same command line given again must be rejected again, for the same option
+		func() {
+			old := getoptions.Writer
+			getoptions.Writer = new(bytes.Buffer)
+			defer func() { getoptions.Writer = old }()
+			defer func() { _ = recover() }()
+			_, err2 := b.Opt.Parse(argv)
+			if err2 == nil || err2.Error() != obs.Err {
+				obs.Oracle["C08"] = append(obs.Oracle["C08"], OracleHit{Key: "second-parse-unknown",
+					What: fmt.Sprintf("Parse(%q) failed with %q; the same call again on the same object returned error %v", argv, obs.Err, err2)})
+			}
+		}()
+	}
 	if hook == nil && !obs.HasErr {
+		obs.secondParseOracle(b, argv, pre, post)
 		obs.subParseOracle(p, argv, pre)
 		obs.setValueOracle(b, pre)
 	}
@@ -546,5 +562,54 @@ func main() {
 	default:
 		fmt.Fprintln(os.Stderr, "unknown subcommand", os.Args[1])
 		os.Exit(2)
+	}
+}
+
+// secondParseOracle - C06 / C12: an option that the command line does not mention keeps what the
+// definition left in it (default or environment value, Called, CalledAs).  The options the first
+// Parse left untouched are not mentioned by this command line; parsing the same command line again
+// on the same object must leave them untouched as well (whatever a second Parse does with the
+// options that are mentioned, which is not specified).
+func (obs *ParseObs) secondParseOracle(b *Built, argv []string, pre, post *getoptions.VerifDump) {
+	h := 0
+	for _, c := range obs.Key {
+		h = (h*41 + int(c)) % 1000003
+	}
+	if h%3 != 2 {
+		return
+	}
+	state := func(o *getoptions.VerifOption) string {
+		return fmt.Sprintf("%s called=%v as=%q", tValue(o).SexpString(), o.Called, o.UsedAlias)
+	}
+	untouched := []int{}
+	for i, o := range pre.Options {
+		if i < len(post.Options) && state(o) == state(post.Options[i]) {
+			untouched = append(untouched, i)
+		}
+	}
+	if len(untouched) == 0 {
+		return
+	}
+	old := getoptions.Writer
+	getoptions.Writer = new(bytes.Buffer)
+	defer func() { getoptions.Writer = old }()
+	defer func() {
+		if x := recover(); x != nil {
+			obs.Oracle["C19"] = append(obs.Oracle["C19"], OracleHit{Key: "panic", What: fmt.Sprintf("second Parse(%q) on the same object panicked: %v", argv, x)})
+		}
+	}()
+	_, _ = b.Opt.Parse(argv)
+	post2 := b.Opt.VerifDumpTree()
+	for _, i := range untouched {
+		if i >= len(post2.Options) {
+			continue
+		}
+		if a, c := state(post.Options[i]), state(post2.Options[i]); a != c {
+			hit := OracleHit{Key: "second-parse-frame",
+				What: fmt.Sprintf("option %q is not mentioned by %q (the first Parse left it as the definition did: %s); a second Parse of the same command line on the same object changed it to %s", post.Options[i].Name, argv, a, c)}
+			obs.Oracle["C06"] = append(obs.Oracle["C06"], hit)
+			obs.Oracle["C12"] = append(obs.Oracle["C12"], hit)
+			return
+		}
 	}
 }
